@@ -677,3 +677,14 @@ for _p in ('C01', 'C10'):
                          'move the sibling subtree up, re-hash; additions climbing over empty roots) and TLC checks over all block '
                          'histories in bounds that it equals the history-free placement Forest!Nodes plus an empty hash at the root of '
                          'every all-dead tree - the position and hash of every node.')
+
+
+# C12: the lock discipline implies AtomicBlocks for an unbounded number of blocks and queries (Apalache, inductive invariant)
+_c12 = PLAN['C12']['stages']
+PLAN['C12']['stages'] = lambda tier, seed: (
+    [{'kind': 'apalache', 'name': 'maplock_inductive', 'module': 'MapLockInd', 'cinit': 'CInit', 'inv': 'IndInv'},
+     {'kind': 'apalache', 'name': 'maplock_inductive_neg', 'module': 'MapLockInd', 'cinit': 'CInitBad', 'inv': 'IndInv', 'expect_violation': True}]
+    + _c12(tier, seed))
+PLAN['C12']['rule'] = ('spec/MapLockInd.tla restates the lock protocol with type annotations and Apalache discharges an inductive invariant '
+                       'that contains AtomicBlocks - for an unbounded number of blocks and queries, 3 readers (and fails to when readers '
+                       'ignore the writer: negative demonstration). ' + PLAN['C12']['rule'])
